@@ -104,7 +104,7 @@ func (w *World) header(body string, extra string) string {
 	}
 	for _, n := range names {
 		fd := w.specFuncs[n]
-		if fd.Body != nil && !fd.Rec {
+		if fd.Body != nil && !fd.Rec && !fd.Opaque {
 			continue
 		}
 		if !present(text, n) {
@@ -118,8 +118,8 @@ func (w *World) header(body string, extra string) string {
 		_, rs := w.resolveType(fd.pkg, fd.Result)
 		fmt.Fprintf(&sb, "(declare-fun %s (%s) %s)\n", q(n), strings.Join(ps, " "), sortText(rs))
 	}
-	sb.WriteString("(declare-fun str.cat (Str Str) Str)\n(declare-fun str.len (Str) Int)\n")
-	sb.WriteString("(declare-fun idx (Int Int) Int)\n(assert (forall ((o Int) (i Int)) (! (= (idx o i) (+ o i)) :pattern ((idx o i)))))\n")
+	sb.WriteString("(declare-fun strcat! (Str Str) Str)\n(declare-fun strlen! (Str) Int)\n")
+	sb.WriteString("(declare-fun idx (Int Int) Int)\n(assert (forall ((o Int) (i Int)) (! (= (idx o i) (+ o i)) :pattern ((idx o i)) :qid idxdef)))\n")
 	var cs []string
 	for ks := range w.cardSorts {
 		cs = append(cs, ks)
@@ -262,6 +262,9 @@ func (x *Exec) discharge(dir string, perCheckMs int, workers int) {
 	dischargeAll([]*Exec{x}, dir, perCheckMs, workers)
 }
 
+// retryFilter, when set, limits the second-chance effort to the goals it accepts.
+var retryFilter func(g *Goal) bool
+
 type jobRef struct {
 	x   *Exec
 	job *scriptJob
@@ -313,7 +316,8 @@ func dischargeAll(xs []*Exec, dir string, perCheckMs int, workers int) {
 				g.script = filepath.Join(dir, ref.tag+".smt2")
 			}
 			mu.Unlock()
-			// second chance for undecided goals with the other solvers
+			// second chance for undecided goals: the other solver configurations
+			// race on a single-goal script
 			for _, g := range job.goals {
 				if g.status == "unsat" {
 					continue
@@ -322,25 +326,39 @@ func dischargeAll(xs []*Exec, dir string, perCheckMs int, workers int) {
 					// smoke test: it is enough that false is not derivable
 					continue
 				}
+				if retryFilter != nil && !retryFilter(g) {
+					continue
+				}
 				wmu.Lock()
 				single := singleGoalScript(ref.x, job.leaf, g)
 				wmu.Unlock()
+				type ans struct {
+					st, solver, script string
+					ms                 int64
+				}
+				ch := make(chan ans, len(solvers))
+				ctx2, cancel2 := context.WithTimeout(context.Background(), time.Duration(perCheckMs)*time.Millisecond+10*time.Second)
 				for si := 1; si < len(solvers); si++ {
-					t1 := time.Now()
-					ctx2, cancel2 := context.WithTimeout(context.Background(), time.Duration(perCheckMs)*time.Millisecond+10*time.Second)
-					tag := fmt.Sprintf("%s.g%d.%d", ref.tag, g.id, si)
-					r2, _, _ := runSolver(ctx2, solvers[si], single, perCheckMs, dir, tag)
-					cancel2()
-					if st, ok := r2[g.id]; ok && (st == "sat" || st == "unsat") {
+					go func(si int) {
+						t1 := time.Now()
+						tag := fmt.Sprintf("%s.g%d.%d", ref.tag, g.id, si)
+						r2, _, _ := runSolver(ctx2, solvers[si], single, perCheckMs, dir, tag)
+						ch <- ans{r2[g.id], solvers[si].name, filepath.Join(dir, tag+".smt2"), time.Since(t1).Milliseconds()}
+					}(si)
+				}
+				for k := 1; k < len(solvers); k++ {
+					a := <-ch
+					if a.st == "sat" || a.st == "unsat" {
 						mu.Lock()
-						g.status = st
-						g.solver = solvers[si].name
-						g.ms = time.Since(t1).Milliseconds()
-						g.script = filepath.Join(dir, tag+".smt2")
+						g.status = a.st
+						g.solver = a.solver
+						g.ms = a.ms
+						g.script = a.script
 						mu.Unlock()
 						break
 					}
 				}
+				cancel2()
 			}
 		}(ref)
 	}
